@@ -16,10 +16,22 @@ long long vf_nondet_i64(void);
 void vf_witness(void);           // end-of-harness reachability witness (must be reachable)
 void vf_note(const char *what, long long v);   // replay-side logging only; no-op symbolically
 }
-// nondet int in [lo,hi]
-static inline int vf_range(int lo, int hi)
+#if defined(VF_REAL) && !defined(VF_CONCRETE)
+#define VF_CONCRETE 1
+#endif
+// v constrained to [lo,hi]: an assumption in the symbolic build; in concrete builds (replay on the real library,
+// conformance runs) out-of-range stream values are folded into the range (identity for in-range values)
+static inline int vf_clamp(int v, int lo, int hi)
 {
-    int v = vf_nondet_int();
+#ifdef VF_CONCRETE
+    long long n = (long long)hi - lo + 1;
+    long long r = ((long long)v - lo) % n;
+    if (r < 0) r += n;
+    return (int)(lo + r);
+#else
     vf_assume(v >= lo && v <= hi);
     return v;
+#endif
 }
+// nondet int in [lo,hi]
+static inline int vf_range(int lo, int hi) { return vf_clamp(vf_nondet_int(), lo, hi); }
